@@ -50,42 +50,92 @@ def _old_strs_of_slice(ctx, body, sl):
     return out
 
 
+def _layers(body, defs, combos):
+    """the ordered list of layers merged into the Figment: one per merge call site, a site inside a `for x in [e0, .., en]` loop over an
+    array literal counting once per element, in index order (core::array::IntoIter yields its elements front to back — trusted std).
+    -> [(site block, site terminator, provider slice, looped)]"""
+    def others_in_receiver(t):
+        pl = op_place(t['args'][0])
+        sl, _ = backward_slice(body, pl['l'], defs) if pl else ([], set())
+        return {id(n) for c, _, n in slice_calls(sl) if c == FIG + 'merge' and n is not t}
+    sites = sorted(combos, key=lambda x: len(others_in_receiver(x[1])))
+    out = []
+    for bb, t in sites:
+        pl = op_place(t['args'][1])
+        sl, _ = backward_slice(body, pl['l'], defs) if pl else ([], set())
+        nexts = [n for c, _, n in slice_calls(sl) if c == 'core::iter::traits::iterator::Iterator::next'
+                 and 'core::array::iter::IntoIter' in (n['aty'][0] if n['aty'] else '')]
+        # the array literal that is iterated: the argument of into_iter, followed through plain moves
+        arrays = []
+        for c, _, n in slice_calls(sl):
+            if c != 'core::iter::traits::collect::IntoIterator::into_iter':
+                continue
+            cur = op_place(n['args'][0])
+            for _ in range(6):
+                if cur is None or cur.get('p'):
+                    break
+                ds = defs.full.get(cur['l'], [])
+                if len(ds) != 1 or 'rv' not in ds[0][2]:
+                    break
+                rv = ds[0][2]['rv']
+                if rv['k'] == 'agg' and rv.get('ak') == 'array':
+                    arrays.append(ds[0])
+                    break
+                cur = op_place(rv['op']) if rv['k'] == 'use' else None
+        rev = [c for c, _, _ in slice_calls(sl) if c.startswith('core::iter::traits::') and c.split('::')[-1] in ('rev', 'skip', 'step_by', 'filter', 'take', 'chain', 'zip')]
+        if nexts and len(arrays) == 1 and not rev and bb in body.reachable(body.succ(bb)):
+            arr = arrays[0][2]
+            rest, _ = backward_slice(body, pl['l'], defs, stop=lambda n: n is arr)     # everything but what only the elements contribute
+            rest = [x for x in rest if x[2] is not arr]
+            for o in arr['rv']['ops']:
+                q = op_place(o)
+                esl, _ = backward_slice(body, q['l'], defs) if q else ([], set())
+                out.append((bb, t, rest + esl, True))
+        else:
+            out.append((bb, t, sl, False))
+    return out
+
+
 def r1_merge_chain(ctx):
-    ctx.rule('C18.R1', 'P7 provenance: the receiver of Figment::extract in ConfigLoader::load is a chain of exactly three Figment::merge calls '
-             '(no join/adjoin/admerge anywhere in the function) whose providers are, in order: Yaml::file(dir.join("base.yml")), '
+    ctx.rule('C18.R1', 'P7 provenance, on ConfigLoader::load with its private helpers inlined (P13): the receiver of Figment::extract derives from '
+             'every Figment::merge site (no join/adjoin/admerge anywhere); the layers, ordered by receiver derivation (a site in a loop over an array '
+             'literal counts once per element, in index order), are exactly: Yaml::file(dir.join("base.yml")), '
              'Yaml::file(dir.join(format!("{}.yml", profile.as_ref()))), Env::prefixed("PX_").split("__").ignore(strip_prefix("PX_","PX_PROFILE")); '
-             'P2: the ignore() call dominates the third merge and each merge dominates extract() (no layer is conditional).')
+             'P2: the ignore() call dominates the environment merge and each merge is executed on every path to extract() (no layer is conditional).')
+    from ..inline import inlined
+    from ..govern import controlling_switches
     body = ctx.need('C18.R1', LOAD, ctx.fb.body(CR, LOAD))
     if body is None:
         return
+    body = inlined(ctx.fb, body)
     defs = Defs(body)
     combos = [(bb, t) for bb, t in body.calls() if (callee(t) or '').startswith(FIG) and callee(t)[len(FIG):] in COMBINATORS]
-    kinds = [callee(t)[len(FIG):] for _, t in combos]
-    ctx.ob('C18.R1', 'combinators', kinds == ['merge', 'merge', 'merge'], body.loc(),
-           'Figment combinators used in load(): %s (must be exactly three `merge`)' % kinds)
+    kinds = sorted({callee(t)[len(FIG):] for _, t in combos})
+    layers = _layers(body, defs, [(bb, t) for bb, t in combos if callee(t) == FIG + 'merge'])
+    ctx.ob('C18.R1', 'combinators', kinds == ['merge'] and len(layers) == 3, body.loc(),
+           'Figment combinators used in load(): %s at %d site(s), %d layer(s) (must be `merge` only, three layers)' % (kinds, len(combos), len(layers)))
     ext = [(bb, t) for bb, t in body.calls() if callee(t) == FIG + 'extract']
     if not ctx.need('C18.R1', 'Figment::extract call', ext):
         return
-    # order the merges by receiver derivation
-    def recv_merges(t):
-        pl = op_place(t['args'][0])
-        sl, _ = backward_slice(body, pl['l'], defs) if pl else ([], set())
-        return [n for c, _, n in slice_calls(sl) if c == FIG + 'merge']
-    chain = sorted([t for _, t in combos if callee(t) == FIG + 'merge'], key=lambda t: len(recv_merges(t)))
-    in_ext = recv_merges(ext[0][1])
-    ctx.ob('C18.R1', 'extract-on-the-chain', len(in_ext) == 3, body.loc(ext[0][0]),
-           'extract() is called on a value derived from %d merge call(s)' % len(in_ext))
-    for i, t in enumerate(chain[:3]):
-        mb = [bb for bb, tt in combos if tt is t][0]
-        ctx.ob('C18.R1', 'merge-%d|unconditional' % (i + 1), body.dominates(mb, ext[0][0]), body.loc(mb, t),
+    pl = op_place(ext[0][1]['args'][0])
+    sl, _ = backward_slice(body, pl['l'], defs) if pl else ([], set())
+    in_ext = {id(n) for c, _, n in slice_calls(sl) if c == FIG + 'merge'}
+    ctx.ob('C18.R1', 'extract-on-the-chain', all(id(t) in in_ext for _, t in combos) and len(layers) == 3, body.loc(ext[0][0]),
+           'extract() is called on a value derived from %d of the %d merge site(s)' % (len(in_ext), len(combos)))
+    for i, (mb, t, _, looped) in enumerate(layers[:3]):
+        if looped:
+            # inside `for x in [..]`: the only run-time test governing the site is the iterator's own `next()` result
+            cs = controlling_switches(body, mb)
+            ok = all(strip_generics(w.get('enum', '')) == 'core::option::Option' for _, w in cs if 'tracing' not in (w.get('mo') or ''))
+        else:
+            ok = body.dominates(mb, ext[0][0])
+        ctx.ob('C18.R1', 'merge-%d|unconditional' % (i + 1), ok, body.loc(mb, t),
                'merge #%d is executed on every path that reaches extract() (a layer that is merged only under a run-time test is a layer that can be skipped)' % (i + 1))
     expect = [('base file', {'figment::providers::data::Format::file', 'std::path::Path::join'}, ['base.yml']),
               ('profile file', {'figment::providers::data::Format::file', 'std::path::Path::join', 'core::convert::AsRef::as_ref'}, ['.yml']),
               ('environment', {'figment::providers::env::Env::prefixed', 'figment::providers::env::Env::split', 'figment::providers::env::Env::ignore'}, ['PX_', '__'])]
-    for i, t in enumerate(chain[:3]):
+    for i, (mb, t, sl, looped) in enumerate(layers[:3]):
         name, need_calls, need_strs = expect[i]
-        pl = op_place(t['args'][1])
-        sl, _ = backward_slice(body, pl['l'], defs) if pl else ([], set())
         calls = {c for c, _, _ in slice_calls(sl)}
         strs = slice_strs(ctx.fb, body, sl)
         okc = need_calls <= calls
@@ -119,8 +169,8 @@ def r1_merge_chain(ctx):
     ctx.ob('C18.R1', 'profile-env-var', val == 'PX_PROFILE', '', 'PROFILE_ENV_VAR = %r' % val)
     # ignore dominates the env merge
     ign_b = [bb for bb, t in body.calls() if callee(t) == 'figment::providers::env::Env::ignore']
-    if chain and ign_b:
-        third = [bb for bb, t in combos if t is chain[-1]][0]
+    if layers and ign_b:
+        third = layers[-1][0]
         ctx.ob('C18.R1', 'ignore-on-every-path', body.dominates(ign_b[0], third), body.loc(ign_b[0]),
                'Env::ignore(PROFILE) dominates the merge of the environment provider (PX_PROFILE is never a key, on any path)')
     else:
@@ -128,24 +178,50 @@ def r1_merge_chain(ctx):
 
 
 def r2_errors(ctx):
-    ctx.rule('C18.R2', 'P1: in ConfigLoader::load the results of ConfigProfile::load (when no profile was set) and of Figment::extract flow into '
-             '`?`; no unwrap_or_default / unwrap_or / ok() on either.')
+    ctx.rule('C18.R2', 'P11 case evaluation: ConfigLoader::load (private helpers entered) is interpreted with ConfigProfile::load / Figment::extract '
+             'failing: every path on which the failing call was made returns Err (the failure is not replaced by a default, ignored, or turned '
+             'into Ok), whatever the idiom (`?`, match, map_err, early return).')
+    from ..absint_std import StdSem, TagInterp
+    from ..callgraph import CallGraph
     body = ctx.fb.body(CR, LOAD)
     if body is None:
         return
-    from ..flow import forward_derived
+    cg = CallGraph(ctx.fb, [(CR, 'Rlib')])
     for name, c in (('profile', 'pavex::config::ConfigProfile::load'), ('extract', FIG + 'extract')):
-        sites = [(bb, t) for bb, t in body.calls() if callee(t) == c]
-        if not ctx.need('C18.R2', c, sites):
+        relevant = {f for f in cg.reaching({c}) if f.startswith('pavex::config::')}
+
+        class Sem(StdSem):
+            crate = CR
+
+            def __init__(self, fb):
+                super().__init__(fb)
+                self.calls = 0
+
+            def domain_call(self, interp, path, body_, bb, term, short):
+                d = term.get('dest')
+                if short == c and d is not None and not d.get('p'):
+                    dk = (body_.id, d['l'])
+                    self.calls += 1
+                    path.alias.pop(dk, None)
+                    path.memo.pop(dk, None)
+                    path.tags[dk] = 'res:Err'
+                    path.env['failed'] = True
+                    return [('next', path)]
+                return None
+
+            def descend_into(self, short):
+                return short in relevant and short != c
+
+        sem = Sem(ctx.fb)
+        outs = TagInterp(sem).run(body, {})
+        after = [oc for oc in outs if oc[1].env.get('failed')]
+        bad = [oc for oc in after if oc[0] != 'return' or oc[1].tags.get((body.id, 0)) != 'res:Err']
+        if not ctx.need('C18.R2', 'a call of %s reachable from ConfigLoader::load' % c, sem.calls):
             continue
-        bb, t = sites[0]
-        der = forward_derived(body, {t['dest']['l']}, through_calls=True)
-        tries = [b2 for b2, t2 in body.calls() if callee(t2) == 'core::ops::try_trait::Try::branch' and op_place(t2['args'][0]) and op_place(t2['args'][0])['l'] in der]
-        swallow = [callee(t2) for b2, t2 in body.calls() if callee(t2) in ('core::result::Result::unwrap_or_default', 'core::result::Result::unwrap_or',
-                                                                           'core::result::Result::ok', 'core::result::Result::unwrap_or_else')
-                   and op_place(t2['args'][0]) and op_place(t2['args'][0])['l'] in der]
-        ctx.ob('C18.R2', 'propagated|%s' % name, bool(tries) and not swallow, body.loc(bb, t),
-               'result of %s reaches `?`: %s; swallowed by: %s' % (c.split('::')[-2] + '::' + c.split('::')[-1], bool(tries), swallow))
+        ctx.ob('C18.R2', 'propagated|%s' % name, bool(after) and not bad, body.loc(),
+               '%s failing: %d path(s) continue after the failure, %d of them do not return Err%s' % (
+                   c.split('::')[-2] + '::' + c.split('::')[-1], len(after), len(bad),
+                   '' if not bad else ' (e.g. %s)' % [(oc[0], oc[1].tags.get((body.id, 0))) for oc in bad[:2]]))
 
 
 def r3_macro_one_name_per_variant(ctx):
